@@ -19,6 +19,7 @@ import (
 	"net/http/httptest"
 	"net/textproto"
 	"regexp"
+	"runtime"
 	"sort"
 	"strings"
 	"time"
@@ -33,20 +34,21 @@ import (
 // with the hmacauth library called directly.
 
 type fwReq struct {
-	Auth     string   `json:"auth"` // session | none
-	Method   string   `json:"method"`
-	Target   string   `json:"target"`
-	Host     string   `json:"host"`
-	Headers  []string `json:"headers"` // raw "Name: value" lines, exact spelling
-	Cookies  []string `json:"cookies"` // raw Cookie header lines; "{SESSION}" is replaced by name=value of a valid session
-	Body     string   `json:"body"`    // hex
-	Chunked  bool     `json:"chunked"`
-	NoCL     bool     `json:"noCL"` // do not add a Content-Length line for the body
+	Auth    string   `json:"auth"` // session | none
+	Method  string   `json:"method"`
+	Target  string   `json:"target"`
+	Host    string   `json:"host"`
+	Headers []string `json:"headers"` // raw "Name: value" lines, exact spelling
+	Cookies []string `json:"cookies"` // raw Cookie header lines; "{SESSION}" is replaced by name=value of a valid session
+	Body    string   `json:"body"`    // hex
+	Chunked bool     `json:"chunked"`
+	NoCL    bool     `json:"noCL"` // do not add a Content-Length line for the body
 }
 
 type fwCase struct {
-	Cfg  pfCfg   `json:"cfg"`
-	Reqs []fwReq `json:"reqs"`
+	Cfg     pfCfg   `json:"cfg"`
+	Reqs    []fwReq `json:"reqs"`
+	Overlap []int   `json:"overlap"` // [sizeA, sizeB]: the overlapping-uploads scenario instead of a request list
 }
 
 var fwCovered = []string{"Content-Length", "Content-Md5", "Content-Type", "Date", "Authorization", "X-Forwarded-User", "X-Forwarded-Email",
@@ -99,7 +101,9 @@ func fwRun(c fwCase) M {
 	}
 	hm := hmacauth.NewHmacAuth(crypto.SHA256, []byte(pfHmacSecret), "Gap-Signature", fwCovered)
 	w.verify = func(r *http.Request, body []byte, rec M) {
-		rec["canon"] = hx(fwCanon(r, body))
+		if len(body) <= 1<<20 {
+			rec["canon"] = hx(fwCanon(r, body))
+		}
 		if sig := r.Header.Get("Sso-Signature"); sig != "" {
 			ok := false
 			why := ""
@@ -270,6 +274,116 @@ func fwRun(c fwCase) M {
 	return M{"cfg": c.Cfg, "reqs": outs, "raw": c}
 }
 
+// fwOverlap: two signed uploads overlap inside the proxy. A (large) has been signed and is being streamed to a backend that
+// does not read yet; B (smaller) is signed, forwarded and answered meanwhile; then A's backend reads. Each backend
+// verifies the signature over exactly what it received.
+func fwOverlap(c fwCase, nA, nB int) M {
+	old := runtime.GOMAXPROCS(1) // one P: the overlap is the only source of nondeterminism left
+	defer runtime.GOMAXPROCS(old)
+	w, err := newPfWorld(c.Cfg)
+	if err != nil {
+		return M{"cfg": c.Cfg, "setupError": err.Error(), "reqs": []M{}, "raw": c}
+	}
+	defer w.close()
+	front := httptest.NewServer(w.handler)
+	defer front.Close()
+	addr := strings.TrimPrefix(front.URL, "http://")
+	certs := map[string]string{}
+	if req, err := http.NewRequest("GET", front.URL+"/oauth2/v1/certs", nil); err == nil {
+		req.Host = c.Cfg.Upstreams[0].From
+		if resp, err := http.DefaultClient.Do(req); err == nil {
+			b, _ := io.ReadAll(resp.Body)
+			resp.Body.Close()
+			json.Unmarshal(b, &certs)
+		}
+	}
+	w.verify = func(r *http.Request, body []byte, rec M) {
+		ok := false
+		if pemStr, found := certs[r.Header.Get("Kid")]; found {
+			if blk, _ := pem.Decode([]byte(pemStr)); blk != nil {
+				if pub, err := x509.ParsePKCS1PublicKey(blk.Bytes); err == nil {
+					if sb, err := base64.URLEncoding.DecodeString(r.Header.Get("Sso-Signature")); err == nil {
+						d := sha256.Sum256([]byte(fwCanon(r, body)))
+						ok = rsa.VerifyPKCS1v15(pub, crypto.SHA256, d[:], sb) == nil
+					}
+				}
+			}
+		}
+		rec["rsaOK"] = ok
+		d := sha256.Sum256(body)
+		rec["bodySha"] = fmt.Sprintf("%x:%d", d, len(body))
+	}
+	gen := func(n int, salt byte) []byte {
+		b := make([]byte, n)
+		for i := range b {
+			b[i] = byte((i*31+7)%251) ^ salt
+		}
+		return b
+	}
+	now := time.Now().Truncate(time.Second)
+	sess := pfGoodSess("app.x.io")
+	sessVal := w.cookieName + "=" + w.sealSess(w.cipher, sess, now)
+	w.mu.Lock()
+	w.cur = &pfStep{Validate: pfOK(), Refresh: pfOK(), Profile: pfReply{Kind: "ok", Groups: []string{"eng"}}, Redeem: pfOK()}
+	w.reached = nil
+	w.mu.Unlock()
+	w.hold, w.holdIn = make(chan struct{}), make(chan struct{}, 4)
+	send := func(path string, body []byte, hold bool) (int, string) {
+		conn, err := net.Dial("tcp", addr)
+		if err != nil {
+			return 0, err.Error()
+		}
+		defer conn.Close()
+		conn.SetDeadline(time.Now().Add(30 * time.Second))
+		var raw bytes.Buffer
+		fmt.Fprintf(&raw, "POST %s HTTP/1.1\r\nHost: app.x.io\r\nCookie: %s\r\nContent-Type: application/octet-stream\r\nContent-Length: %d\r\n", path, sessVal, len(body))
+		if hold {
+			raw.WriteString("X-Verif-Hold: 1\r\n")
+		}
+		raw.WriteString("Connection: close\r\n\r\n")
+		conn.Write(raw.Bytes())
+		conn.Write(body)
+		resp, err := http.ReadResponse(bufio.NewReader(conn), nil)
+		if err != nil {
+			return 0, err.Error()
+		}
+		io.Copy(io.Discard, resp.Body)
+		resp.Body.Close()
+		return resp.StatusCode, ""
+	}
+	bodyA, bodyB := gen(nA, 0), gen(nB, 0x5a)
+	type rs struct {
+		st  int
+		err string
+	}
+	doneA := make(chan rs, 1)
+	go func() { st, e := send("/upload-a", bodyA, true); doneA <- rs{st, e} }()
+	overlapped := false
+	select {
+	case <-w.holdIn: // A is signed, its upstream request has started, its body is not read yet
+		overlapped = true
+	case <-time.After(20 * time.Second):
+	}
+	stB, errB := send("/upload-b", bodyB, false)
+	close(w.hold)
+	ra := <-doneA
+	w.mu.Lock()
+	reached := w.reached
+	w.cur = nil
+	w.mu.Unlock()
+	sha := func(b []byte) string { d := sha256.Sum256(b); return fmt.Sprintf("%x:%d", d, len(b)) }
+	out := M{"overlapped": overlapped, "statusA": ra.st, "errA": ra.err, "statusB": stB, "errB": errB, "sentA": sha(bodyA), "sentB": sha(bodyB)}
+	for _, rec := range reached {
+		k := "B"
+		if rec["path"] == "/upload-a" {
+			k = "A"
+		}
+		out["recv"+k] = rec["bodySha"]
+		out["rsa"+k] = rec["rsaOK"]
+	}
+	return M{"cfg": c.Cfg, "reqs": []M{}, "overlap": out, "raw": c}
+}
+
 var reCache = map[string]*regexp.Regexp{}
 
 func mustRe(s string) *regexp.Regexp {
@@ -285,7 +399,12 @@ func init() {
 	engines["forward"] = func(rng *rand.Rand, n int, em *Emitter, replay []byte) {
 		idx := 0
 		emit := func(c fwCase) {
-			o := fwRun(c)
+			var o M
+			if len(c.Overlap) == 2 {
+				o = fwOverlap(c, c.Overlap[0], c.Overlap[1])
+			} else {
+				o = fwRun(c)
+			}
 			o["e"] = "forward"
 			o["case"] = idx
 			em.Emit(o)
@@ -323,7 +442,11 @@ func init() {
 			R("session", "POST", "/submit", []string{"Content-Type: text/plain", "Content-Type: "}, nil, ""),
 			R("session", "GET", "/", []string{"Content-Length: 0"}, nil, ""),
 			R("session", "POST", "/", []string{"Content-Length: 0"}, nil, ""),
-			func() fwReq { r := R("session", "POST", "/chunked", []string{"Content-Type: application/octet-stream"}, nil, "\x00\x01binary\xff body"); r.Chunked = true; return r }(),
+			func() fwReq {
+				r := R("session", "POST", "/chunked", []string{"Content-Type: application/octet-stream"}, nil, "\x00\x01binary\xff body")
+				r.Chunked = true
+				return r
+			}(),
 			R("session", "GET", "/a%2Fb/c%20d?x=1&y=%26", nil, nil, ""),
 			R("session", "GET", "/", nil, []string{"a=1; {SESSION}; b=2", "c=3"}, ""),
 			R("session", "GET", "/", nil, []string{"{SESSION}"}, ""),
@@ -333,6 +456,7 @@ func init() {
 			R("session", "GET", "/", []string{"Authorization: Basic abc", "Authorization: Bearer def"}, nil, ""),
 		}})
 		emit(fwCase{Cfg: cfg(true, false), Reqs: []fwReq{R("session", "GET", "/x", nil, nil, ""), R("none", "GET", "/health", nil, nil, "")}})
+		emit(fwCase{Cfg: cfg(true, false), Overlap: []int{12 << 20, 1 << 20}})
 		emit(fwCase{Cfg: cfg(false, true), Reqs: []fwReq{R("session", "POST", "/x", []string{"Content-Type: a/b"}, nil, "body")}})
 		emit(fwCase{Cfg: cfg(false, false), Reqs: []fwReq{R("session", "GET", "/x", spoof, []string{"a=b"}, "")}})
 		injCfg := cfg(false, false)
